@@ -289,9 +289,19 @@ impl RtpsWriterProxy {
         self.ack_base, remove_from, remove_until_before, self.remote_writer_guid
       );
     } else {
-      // TODO: This potentially generates a very large BTreeMap
+      // The range starts above ack_base, so we have to remember it number by
+      // number. The range comes from the network (GAP), so it can be
+      // arbitrarily wide. Record only a bounded prefix of it. The rest stays
+      // unknown to us for now: we will ask for those numbers when we get
+      // there, and the writer will then tell us again that they are gone.
+      let max_recorded = SequenceNumber::from(4096);
+      let record_until_before = if remove_until_before - remove_from > max_recorded {
+        remove_from + max_recorded
+      } else {
+        remove_until_before
+      };
       for na in
-        SequenceNumber::range_inclusive(remove_from, remove_until_before - SequenceNumber::new(1))
+        SequenceNumber::range_inclusive(remove_from, record_until_before - SequenceNumber::new(1))
       {
         self.changes.insert(na, None);
       }
